@@ -60,10 +60,16 @@ fn tol_for(f32m: bool, s: f64, n: usize, p: usize) -> Tol {
     } else {
         (1e-9, 1e-9, 1e-9, 1e-6)
     };
+    // The BBD tree merges the points of a box whose half-width is below an ABSOLUTE 1e-10 into one leaf and
+    // represents them by its first point (a design approximation inherited by the library). Two distinct
+    // rows closer than 2e-10 therefore shift sums and means by up to 2e-10 per merged row. That is not a
+    // violation of the property at any scale the workload generates (|x| >= ~1e-2), so every tolerance
+    // carries that absolute term.
+    let merge = 2e-10;
     Tol {
-        d2: e_d2 * s * s * p as f64,
-        sum: e_sum * s * n as f64,
-        mean: e_mean * s,
+        d2: e_d2 * s * s * p as f64 + 4.0 * merge * s * p as f64,
+        sum: e_sum * s * n as f64 + 2.0 * merge * n as f64,
+        mean: e_mean * s + 2.0 * merge,
         dist_rel: e_dist,
     }
 }
@@ -816,7 +822,7 @@ impl Property for C12 {
             "the only nondeterminism KMeans::fit consumes is rand::thread_rng() inside kmeans_plus_plus, served by the simulator through the patched rand 0.8.8 copy".into(),
             "the cfg(smartcore_verif) probe reports exactly the arguments and results of BBDTree::clustering at each Lloyd step (add-only hook, src/verif.rs)".into(),
             "reference model: exhaustive nearest-centroid search in f64; tolerances (relative to data/centroid scale s): squared distance 1e-9*s^2*p, sums 1e-9*s*n, means 1e-9*s, distortion 1e-6 relative (f32: 2e-4, 2e-4, 1e-4, 5e-3) — at least 100x the measured worst case, which is reported under measured_maxima".into(),
-            "inputs avoid distinct rows closer than ~1e-6 (the BBD tree merges boxes of half-width < 1e-10 into a leaf; exact duplicates are generated deliberately)".into(),
+            "the BBD tree merges the points of a box of half-width < 1e-10 (absolute) into one leaf represented by its first point; every tolerance therefore carries an absolute term of a few 1e-10 per merged row (data are generated at scales >= 1e-2, where this is < 1e-7 relative); data at scales near 1e-10 would be clustered as if all rows coincided — an observation for the maintainers, outside the generated domain".into(),
             "sampling, not enumeration: a clean batch is evidence, not proof".into(),
         ]
     }
